@@ -3,6 +3,8 @@
 #include <cocls/mutex.h>
 #include <cocls/async.h>
 #include <cocls/future.h>
+#include <cocls/thread_pool.h>
+#include <memory>
 #include <thread>
 #include <vector>
 
@@ -11,7 +13,7 @@ namespace {
 enum { HOLDER = 0, PUB = 1, NGRANT = 2, TRY_OK = 3, GRANT_LOG = 100 /* order of grants */, GRANTS = 200, REQS = 300 };
 constexpr int ORDERED_BASE = 0, RACER_BASE = 8;
 
-struct Ctx { cocls::mutex mx; };
+struct Ctx { cocls::mutex mx; cocls::thread_pool *pool = nullptr; };
 
 void on_grant(int me) {
     long h = dsim::cell_xchg(HOLDER, me + 1);
@@ -36,6 +38,7 @@ cocls::async<void> ordered_waiter(Ctx &c, int me, int rel) {
     if (rel == 0) own.release();
     else if (rel == 1) co_await own.release();
     else if (rel == 2) { /* destructor of ownership at scope exit */ }
+    else if (rel == 4) { auto sp = own.release(); c.pool->resume(sp); }      // the next owner is resumed on a thread-pool worker
     else {
         std::thread t([o = std::move(own)]() mutable { o.release(); });   // released from another thread
         t.join();
@@ -86,13 +89,15 @@ void dsim_scenario() {
     int n_ord = dsim::choose(5);              // 0..4 ordered waiters (0: only releases racing with requests in flight)
     int n_rac = dsim::choose(4);              // 0..3 racing contenders
     int rel[4], rk[3], rr[3];
-    for (int i = 0; i < n_ord; i++) rel[i] = dsim::choose(4);
+    for (int i = 0; i < n_ord; i++) rel[i] = dsim::choose(5);
     for (int i = 0; i < n_rac; i++) { rk[i] = dsim::choose(3); rr[i] = 1 + dsim::choose(4); }
     int first_rel = dsim::choose(3);
     dsim::plan_note("ordered=%d racing=%d first_rel=%d rel=", n_ord, n_rac, first_rel);
     for (int i = 0; i < n_ord; i++) dsim::plan_note("%d", rel[i]);
     for (int i = 0; i < n_rac; i++) dsim::plan_note(" racer%d:kind%d,rounds%d", i, rk[i], rr[i]);
 
+    std::unique_ptr<cocls::thread_pool> pool;       // only when some release goes through it; destroyed after every contender has finished
+    for (int i = 0; i < n_ord; i++) if (rel[i] == 4 && !pool) { pool = std::make_unique<cocls::thread_pool>(1); c.pool = pool.get(); }
     // T0 takes the mutex first so that every ordered request must queue
     auto own0 = c.mx.try_lock();
     if (!own0) dsim::fail("C08.try_lock_free", "try_lock failed on a fresh mutex");
